@@ -158,6 +158,11 @@ class Ctx:
     return 1 if self.violations else 0
 
 
+def seed_base(ctx, salt=0):
+  """SeedBase constant for the Prng-driven specifications (kept small: 32-bit arithmetic in TLC)."""
+  return (ctx.seed % 500) * 100000 + salt * 1000
+
+
 def rng(ctx, salt=0):
   import random
   return random.Random(ctx.seed * 1000003 + salt)
